@@ -21,6 +21,17 @@ with `unrecognised shape`.  Normalisations done here (each keeps the Python mean
   a, *m, z = e                -> SUnpackStar
   t = helper(args)            -> SCall with the translated body of `helper`, a function defined at module level in the same
                                  file (not recursive, positional parameters only); its locals get slots of their own
+
+SphinxInventory._parseInventory is translated into the second layer (istmt) of Model/InventoryIR.v, statement by statement:
+  x = {}                      -> INewDict x
+  x[k] = v                    -> IDictStore x k v
+  for x in <expr>: B          -> IForEach x <expr> B     (no else clause; `e.splitlines()` is the primitive ESplitLines)
+  try: B except K: H [else: E]-> ITry B K H E            (exactly one handler, no finally, no `as`)
+  if c: A else: B             -> IIf c A B
+  self.error('sphinx', 'Failed to parse line "%s" for %s' % (a, b))   (or the same text as an f-string)
+                              -> IErrorLine a b          (any other message / argument shape is unrecognised)
+  t = _parseInventoryLine(a)  -> ICall t code_parse_line [a]   (the code translated above, by name)
+  any other statement         -> ILocal <its first-layer translation>
 """
 import ast
 import inspect
@@ -180,6 +191,8 @@ class Function:
                     return 'EEndsWith (%s) (%s)' % (self.expr(f.value), self.expr(e.args[0]))
                 if f.attr == 'startswith' and len(e.args) == 1:
                     return 'EStartsWith (%s) (%s)' % (self.expr(f.value), self.expr(e.args[0]))
+                if f.attr == 'splitlines' and len(e.args) == 0:
+                    return 'ESplitLines (%s)' % self.expr(f.value)
                 bad('method call .%s' % f.attr, e)
             bad('call', e)
         bad('expression %s' % type(e).__name__, e)
@@ -365,6 +378,116 @@ class Function:
         return lines
 
 
+LINE_MESSAGE = 'Failed to parse line "%s" for %s'
+LINE_HELPER = '_parseInventoryLine'
+
+
+class InvFunction(Function):
+    """a method translated into the second layer (istmt)"""
+
+    def iseq(self, items):
+        items = [i for i in items if i is not None and i != 'ISkip']
+        if not items:
+            return 'ISkip'
+        r = items[-1]
+        for i in reversed(items[:-1]):
+            r = 'ISeq (%s) (%s)' % (i, r)
+        return r
+
+    def iblock(self, stmts):
+        return self.iseq([self.istmt(s) for s in stmts])
+
+    def error_report(self, call, node):
+        """self.error('sphinx', <the line message> % (a, b)) -> (a, b)"""
+        if call.keywords or len(call.args) != 2:
+            bad('self.error arguments', node)
+        sec, msg = call.args
+        if not (isinstance(sec, ast.Constant) and sec.value == 'sphinx'):
+            bad('self.error section', node)
+        if (isinstance(msg, ast.BinOp) and isinstance(msg.op, ast.Mod) and isinstance(msg.left, ast.Constant)
+                and msg.left.value == LINE_MESSAGE and isinstance(msg.right, ast.Tuple) and len(msg.right.elts) == 2):
+            a, b = msg.right.elts
+            return self.expr(a), self.expr(b)
+        if isinstance(msg, ast.JoinedStr) and len(msg.values) == 4:
+            c1, a, c2, b = msg.values
+            pre, mid = LINE_MESSAGE.split('%s')[:2]
+            if (isinstance(c1, ast.Constant) and c1.value == pre and isinstance(c2, ast.Constant) and c2.value == mid
+                    and all(isinstance(v, ast.FormattedValue) and v.conversion == -1 and v.format_spec is None
+                            for v in (a, b))):
+                return self.expr(a.value), self.expr(b.value)
+        bad('self.error message', node)
+
+    def itarget(self, target, node):
+        if isinstance(target, ast.Name):
+            return 'TVar %s' % self.local(target.id, node)
+        st = self.star_split(target, node)
+        if st is not None:
+            return 'TStar [%s] %s [%s]' % ('; '.join(st[0]), st[1], '; '.join(st[2]))
+        if isinstance(target, (ast.Tuple, ast.List)) and all(isinstance(x, ast.Name) for x in target.elts):
+            return 'TTuple [%s]' % '; '.join(self.local(x.id, node) for x in target.elts)
+        bad('assignment target', node)
+
+    def iassign(self, target, value, s):
+        if isinstance(value, ast.Dict) and not value.keys and isinstance(target, ast.Name):
+            return 'INewDict %s' % self.local(target.id, s)
+        if isinstance(target, ast.Subscript):
+            if not isinstance(target.value, ast.Name) or isinstance(target.slice, ast.Slice):
+                bad('subscript store', s)
+            return 'IDictStore %s (%s) (%s)' % (self.local(target.value.id, s), self.expr(target.slice), self.expr(value))
+        if isinstance(value, ast.Call) and isinstance(value.func, ast.Name) and value.func.id == LINE_HELPER:
+            if value.keywords or any(isinstance(a, ast.Starred) for a in value.args) or len(value.args) != 1:
+                bad('helper call arguments', s)
+            return 'ICall (%s) code_parse_line [%s]' % (self.itarget(target, s), self.expr(value.args[0]))
+        return None
+
+    def istmt(self, s):
+        if isinstance(s, ast.For) and not (isinstance(s.iter, ast.Call) and isinstance(s.iter.func, ast.Name)
+                                           and s.iter.func.id == 'range'):
+            if not isinstance(s.target, ast.Name) or s.orelse:
+                bad('for loop target / else clause', s)
+            it = self.expr(s.iter)
+            return 'IForEach %s (%s) (%s)' % (self.local(s.target.id, s), it, self.iblock(s.body))
+        if isinstance(s, ast.Try):
+            if s.finalbody or len(s.handlers) != 1:
+                bad('try with finally / not exactly one handler', s)
+            h = s.handlers[0]
+            if h.type is None or h.name is not None:
+                bad('bare except / except ... as name', h)
+            return 'ITry (%s) [%s] (%s) (%s)' % (self.iblock(s.body), '; '.join(self.exn_classes(h.type)),
+                                                 self.iblock(h.body), self.iblock(s.orelse))
+        if isinstance(s, ast.If):
+            return 'IIf (%s) (%s) (%s)' % (self.expr(s.test), self.iblock(s.body), self.iblock(s.orelse))
+        if isinstance(s, ast.Expr) and isinstance(s.value, ast.Call):
+            f = s.value.func
+            if isinstance(f, ast.Attribute) and f.attr == 'error' and isinstance(f.value, ast.Name) and f.value.id == 'self':
+                return 'IErrorLine (%s) (%s)' % self.error_report(s.value, s)
+            bad('expression statement', s)
+        if isinstance(s, ast.Assign) and len(s.targets) == 1:
+            r = self.iassign(s.targets[0], s.value, s)
+            if r is not None:
+                return r
+        if isinstance(s, ast.AnnAssign) and s.value is not None:
+            r = self.iassign(s.target, s.value, s)
+            if r is not None:
+                return r
+        t = self.stmt(s)
+        return None if t is None else 'ILocal (%s)' % t
+
+    def emit(self, name):
+        body = self.iblock(strip_doc(self.fn.body))
+        if self.callees:
+            bad('inlined helper call inside %s' % self.fn.name, self.fn)
+        lines = ['(* locals of %s *)' % self.fn.name]
+        for py, i in self.vars.items():
+            lines.append('Definition v_%s_%s : var := %d%%nat.' % (self.tag, py, i))
+        lines.append('Definition %s : inv_code :=' % name)
+        lines.append('  {| i_locals := %d%%nat; i_params := [%s]; i_body :=' % (
+            len(self.vars), '; '.join('v_%s_%s' % (self.tag, p) for p in self.params)))
+        lines.append(textwrap.fill(body, 112, initial_indent='  ', subsequent_indent='  ', break_long_words=False) + ' |}.')
+        lines.append('')
+        return lines
+
+
 def generate() -> dict:
     from pydoctor import sphinx
     src = Path(inspect.getsourcefile(sphinx)).read_text()
@@ -378,7 +501,10 @@ def generate() -> dict:
     gl = [n for n in cls[0].body if isinstance(n, ast.FunctionDef) and n.name == 'getLink']
     if len(gl) != 1:
         bad('SphinxInventory.getLink not found exactly once')
-    if fns[0].decorator_list or gl[0].decorator_list:
+    pi = [n for n in cls[0].body if isinstance(n, ast.FunctionDef) and n.name == '_parseInventory']
+    if len(pi) != 1:
+        bad('SphinxInventory._parseInventory not found exactly once')
+    if fns[0].decorator_list or gl[0].decorator_list or pi[0].decorator_list:
         bad('decorated function')
     module_funcs = {n.name: n for n in tree.body if isinstance(n, ast.FunctionDef)}
     p = Function(fns[0], 'parse', skip_self=False, module_funcs=module_funcs)
@@ -389,6 +515,10 @@ def generate() -> dict:
              'From PydoctorVerif Require Import Base.Sexp Model.Inventory Model.InventoryIR.', '']
     lines += p.emit('code_parse_line')
     lines += g.emit('code_get_link')
+    inv = InvFunction(pi[0], 'inv', skip_self=True, module_funcs=module_funcs)
+    if len(inv.params) != 2:
+        bad('parameters of _parseInventory(self, base_url, payload)')
+    lines += inv.emit('code_parse_inventory')
     return {'InventoryCode.v': '\n'.join(lines) + '\n'}
 
 
